@@ -19,6 +19,7 @@ import (
 	"context"
 	"flag"
 	"fmt"
+	"runtime"
 	"sync"
 	"sync/atomic"
 	"time"
@@ -82,7 +83,13 @@ func concWindow(args []string, out *bufio.Writer) {
 		r := &rng{s: scriptSeed(*seed, "concwindow", i)}
 		fmt.Fprintf(out, "script concwindow-%d-%d\n", *seed, i)
 		rec := &hookRecorder{}
-		o := &otter.Options[int, int]{Logger: nopLogger{}, StatsRecorder: rec}
+		o := &otter.Options[int, int]{Logger: nopLogger{}, StatsRecorder: rec,
+			// a replaced value is reported before its successor is published: dwelling here widens that window a little
+			OnAtomicDeletion: func(e otter.DeletionEvent[int, int]) {
+				if e.Cause == otter.CauseReplacement {
+					runtime.Gosched()
+				}
+			}}
 		switch r.intn(4) {
 		case 1:
 			o.MaximumSize = 1000
@@ -98,7 +105,38 @@ func concWindow(args []string, out *bufio.Writer) {
 		for round := 0; round < rounds; round++ {
 			k := r.intn(4)
 			c.Invalidate(k)
-			switch r.intn(3) {
+			switch r.intn(4) {
+			case 3:
+				// ---- hotget: the key is present throughout (it is only ever overwritten); loader-backed Gets run against the
+				// overwrites: each returns one of the written values and the loader is never asked
+				base := 500000 + 1000*round
+				c.Set(k, base)
+				nw := 100 + r.intn(200)
+				ld := &windowLoader{val: 999999}
+				var bad atomic.Int32
+				var wg sync.WaitGroup
+				wg.Add(1)
+				go func() {
+					defer wg.Done()
+					for j := 1; j <= nw; j++ {
+						c.Set(k, base+j)
+					}
+				}()
+				for q := 0; q < 3; q++ {
+					wg.Add(1)
+					go func() {
+						defer wg.Done()
+						for j := 0; j < nw; j++ {
+							v, err := c.Get(context.Background(), k, ld)
+							if err != nil || v < base || v > base+nw {
+								bad.Add(1)
+							}
+						}
+					}()
+				}
+				wg.Wait()
+				final, ok := c.GetIfPresent(k)
+				fmt.Fprintf(out, "hotget key=%d loads=%d bad=%d final=%d present=%v want=%d\n", k, ld.calls.Load(), bad.Load(), final, ok, base+nw)
 			case 0:
 				// ---- missgap
 				ld := &windowLoader{entered: make(chan struct{}), gate: make(chan struct{}), val: 333000 + round}
